@@ -13,6 +13,13 @@ let current = null // { adapter, simfs }
 const origLoad = Module._load
 Module._load = function (request, parent, isMain) {
   const from = parent && parent.filename
+  // a module of the simulated world requires something whose loading runs code of the world (C11 site kind
+  // builtin-callback, loader variant): node's own loader frames are on the stack while the callback runs
+  if (request === 'sim:call-during-load') {
+    const cb = globalThis.__simLoadCb; const arg = globalThis.__simLoadArg
+    globalThis.__simLoadCb = undefined; globalThis.__simLoadArg = undefined
+    return typeof cb === 'function' ? cb(arg) : {}
+  }
   if (current && from) {
     if (request === './wasm/wasm_iast_rewriter' && from === path.join(REPO, 'main.js')) return current.adapter
     if (request === 'lru-cache' && from.startsWith(REPO + path.sep)) return origLoad.call(this, VENDOR_LRU, parent, isMain)
